@@ -185,6 +185,12 @@ example : (∀ l ∈ demoListing, l.WF) ∧
     parseOn (printListing demoListing ++ ['\n']) = ["launch_2-0".toList, "boot3.0".toList] :=
   ⟨demoListing_wf, by decide +kernel, by decide +kernel⟩
 
+/-- Why `Rec.WF`/the printer insist on a space between tag and size (the patterns allow `\s*`): when a tag that
+ends in a digit abuts the size (qemu < 6.0 layout, tags of 20 characters and more), the same line is an off
+snapshot `a1` for one pattern and a vm state `a` for the other. Reproduced on the real regexes by the harness. -/
+example : parseOff "1 a10 B 2020-01-01".toList = ["a1".toList] ∧ parseOn "1 a10 B 2020-01-01".toList = ["a".toList] :=
+  ⟨by decide +kernel, by decide +kernel⟩
+
 /-- every record is seen by exactly one of the two patterns: a tag is listed as an image (off) state iff a
 record of that tag has vm size zero, as a vm (on) state iff a record of that tag has another size -/
 theorem on_off_told_apart (ls : List Line) (h : ∀ l ∈ ls, l.WF) (x : Name) :
